@@ -30,11 +30,19 @@ func (c *Conversation) receiveUnit(m ValidMessage, forgetFragments bool) (plain 
 		return nil, nil, errUnsupportedOTRVersion
 	case msgGuessFragment:
 		shouldForgetFragment = false
+		hadVersion := c.version != nil
 		c.fragmentationContext, err = c.receiveFragment(c.fragmentationContext, message)
 		if fragmentsFinished(c.fragmentationContext) {
 			complete := c.fragmentationContext.frag
 			c.fragmentationContext = forgetFragment()
-			return c.withInjectionsPlain(c.receiveUnit(complete, false))
+			plain, toSend, err = c.receiveUnit(complete, false)
+			if !hadVersion {
+				c.forgetVersionUnlessKeyExchangeStarted(err)
+			}
+			return c.withInjectionsPlain(plain, toSend, err)
+		}
+		if !hadVersion {
+			c.forgetVersionUnlessKeyExchangeStarted(err)
 		}
 	case msgGuessUnknown:
 		c.messageEvent(MessageEventReceivedMessageUnrecognized)
@@ -141,6 +149,10 @@ func decode(encoded encodedMessage) (messageWithHeader, error) {
 }
 
 func (c *Conversation) receiveDecoded(message messageWithHeader) (plain MessagePlaintext, toSend []messageWithHeader, err error) {
+	if c.version == nil {
+		defer func() { c.forgetVersionUnlessKeyExchangeStarted(err) }()
+	}
+
 	if err = c.checkVersion(message); err != nil {
 		return
 	}
@@ -159,6 +171,18 @@ func (c *Conversation) receiveDecoded(message messageWithHeader) (plain MessageP
 		return c.receiveDataMessage(messageHeader, messageBody)
 	default:
 		return c.receiveAKEMessage(msgType, messageBody)
+	}
+}
+
+// forgetVersionUnlessKeyExchangeStarted undoes a version commitment made while looking at a message that
+// turned out to be rejected or ignored: only a query, a whitespace tag or a message that starts a key
+// exchange may pin the protocol version of a conversation
+func (c *Conversation) forgetVersionUnlessKeyExchangeStarted(err error) {
+	if c.msgState == encrypted {
+		return
+	}
+	if err != nil || c.ake == nil || c.ake.state == nil || c.ake.state.identity() == (authStateNone{}).identity() {
+		c.version = nil
 	}
 }
 
